@@ -25,8 +25,11 @@ How a polynomial identity is decided by evaluation
 
 Oracles
   exact      `oracles.hansen`: X^{n,m}_k from the eccentric-anomaly integral expanded as a Laurent
-             polynomial in exp(iE) with power-series-in-e rational coefficients, order 24 (40 for k = 0);
-             self-tested (exit 2 on failure) against Kaula / Murray-Dermott textbook series (G_200,
+             polynomial in exp(iE) with power-series-in-e rational coefficients, order 24.  For the
+             k = l-2p+q = 0 cells (the ones TidalPy writes as closed forms) the shards use the finite
+             true-anomaly closed form P_lp(e) (1-e^2)^-(l-1/2) expanded to order 40, which `selftest()`
+             proves equal to the integral oracle through e^40 for every (l,p) on every run.
+             Self-tested (exit 2 on failure) against Kaula / Murray-Dermott textbook series (G_200,
              G_20-1, G_201, G_202, G_21+-1, G_212, G_300, G_310, G_311, G_20-2 = 0), G_210 = (1-e^2)^-3/2
              to order 40, the independent true-anomaly closed forms for all k = 0 cells of l = 2..7 to
              order 40, and mpmath quadrature of the defining mean-anomaly integral (Kepler's equation
@@ -37,25 +40,45 @@ Oracles
              binary value of e.
 
 Tolerances (calibrated on the unchanged tree)
-  COEF_RTOL = 1e-13 relative per coefficient (exact 0 must be exactly 0).  The tables are 15-significant
-      -digit decimal literals: measured worst relative deviation over all 19 525 non-zero coefficients is
-      4.6e-15 (l=7, N=20, p=1, q=-6, e^20); margin 20x.  A one-digit slip in any of the first 12
-      significant digits is >= 1e-12 relative, i.e. >= 10x above the tolerance (the design's looser
-      1e-12*max(1,|c|) would have let slips in small coefficients through).
-  VAL_RTOL = 2e-13 x scale for compiled values, scale = sum_k |c_k| e^k for polynomial cells and
-      |value| * (1 + (2l-1)/(1-e^2)) for closed cells (the conditioning of (e^2-1)^-(2l-1) in e^2).
-      Measured worst over 60 000 generated cases: 7.5e-15 x scale (poly), 1.1e-15 x scale (closed);
-      margin > 25x.  A wrong table behind a lookup differs by O(1) x scale.
-  SAME_RTOL = 4 * 2^-52 x scale between helper output and dispatcher output (measured: bit-identical).
+  COEF_RTOL = 5e-13 relative per coefficient, |c_table - c_exact| <= 5e-13 |c_exact| (an exact 0 must be
+      exactly 0; closed-form cells turn out to be exactly rational and match with zero deviation).
+      The tables are 15-significant-digit decimal literals, i.e. <= 5e-15 relative.  Measured over all
+      19 525 non-zero coefficients: 19 521 are within 5.0e-15; the four e^22 coefficients of the l=2, N=22
+      table  G^2_{2,0,1}=G^2_{2,2,-1} (0.0289420044285592, exact 0.02894200442855997) and
+      G^2_{2,0,2}=G^2_{2,2,-2} (-0.15239674828622, 14 digits) deviate by 2.7e-14 / 7.2e-15 (float noise of
+      whatever generated that table; harmless).  Margin over the worst: 19x.  A one-unit slip in any of the
+      first 12 significant digits is >= 1e-12 relative, i.e. is caught.  (The design's
+      1e-12*max(1,|c|) would have let slips in small coefficients through, so the relative form is used.)
+  VAL_RTOL = 1e-13 x sum_k |c_k| e^k for polynomial cells of the compiled code (measured worst 5.8e-15,
+      dominated by the literals' own rounding; margin 17x);
+  CLOSED_RTOL = 16 ulp x |value| x (1 + (2l-1)/(1-e^2)) for closed-form cells (the factor is the
+      conditioning of (e^2-1)^-(2l-1) in e^2; measured worst 0.5 ulp x that scale, 4.2e-15 relative at
+      l=7, e=0.899; margin 32x).  Calibration set: every (l<=3, N) plus (4,12), (5,20), (7,8), (7,20), 255
+      eccentricities each (0, 0.9, 210 in [0,0.9] with 60 of them in [0.8,0.9], 40 log-uniform in
+      1e-8..1e-1), array and scalar signatures.  A wrong table behind a lookup differs by O(1) x scale.
+  UNDERFLOW_FLOOR = 1e-300 absolute: for e < ~1e-27 the powers e^k are subnormal and carry no relative
+      precision (found by Hypothesis on the first run: e = 3.7e-27, N = 18 - rounding, not a defect).
+  SAME_RTOL = 4 ulp x scale between helper output and dispatcher output (measured: bit-identical).
 
-Sensitivity (tools/mut.py, scratch copy; all caught by the quick tier; see final report for the log)
-  orderl5.py  trunc20 p=0 q=-1: 1.47623522600003 -> 1.47623522610003 (e^18 coeff, 11th digit)  -> coefficient
-  orderl3.py  trunc6: results[3][1] = results[0][-1] -> results[0][1]  (swapped alias)            -> coefficient
-  orderl4.py  trunc8: dropped the p=1, q=-3 entry                                                 -> absent_cell_nonzero
-  mode_calc_helper/__init__.py  lookup[8][4] -> eccentricity_truncation_6_maxl_4                  -> coefficient (lookup_py)
-  eccentricity_funcs/__init__.py  truncations[10][5] -> eccentricity_funcs_l5_trunc8              -> coefficient (truncations)
-  eccen_calc_orderl3.py  truncation_12_maxl_3: 2: orderl2.eccentricity_funcs_trunc12 -> trunc10    -> lookup_py + compiled
-  orderl2.py  trunc4 closed form (e2 - 1.0)**3 -> **2 in p=1,q=0                                   -> coefficient + compiled
+Sensitivity (tools/mut.py on a scratch copy, `-- --cases 1600`; all CAUGHT by the quick tier, log in
+/verif/out/mut_c08.log; in brackets the clause(s) that fired)
+  M1  orderl5.py trunc18 p=0,q=-4: 1.22969144527851e-5*e18 -> 1.22969144537851e-5 (10th digit of an e^18
+      coefficient)                                                [coefficient: truncations, lookup_py]
+  M2  orderl3.py trunc2: results[3][1] = results[0][-1] -> results[0][1] (swapped alias)
+                                                [coefficient: truncations, lookup_py; compiled_value]
+  M3a orderl4.py trunc6: alias line results[3][3] = results[1][-3] removed (dropped q entry)
+                                                [absent_cell_nonzero]
+  M3b orderl4.py trunc8: dict entry p=1, q=-3 removed (an alias refers to it)   [exception KeyError]
+  M4  mode_calc_helper/__init__.py: lookup[8][4] -> eccentricity_truncation_6_maxl_4
+                                                [coefficient + absent_cell_nonzero: lookup_py]
+  M5  eccentricity_funcs/__init__.py: eccentricity_truncations[10][5] -> eccentricity_funcs_l5_trunc8
+                                                [coefficient + absent_cell_nonzero: truncations]
+  M6  eccen_calc_orderl3.py truncation_12_maxl_3: 2: orderl2.eccentricity_funcs_trunc12 -> trunc10
+                                                [lookup_py; compiled_value + compiled_keys: lookup]
+  M7  orderl4.py closed form -0.25*(3.0*e2 + 2.0)**2/(e2-1.0)**7 -> (3.0*e2 + 1.0)
+                                                [coefficient + closed_form_tail]
+  M8  orderl2.py trunc4 p=0,q=1: -53.8125*e4 -> +53.8125*e4     [coefficient; compiled_value]
+No fixes/revert-*.diff concerns these files.
 """
 import math
 import os
@@ -89,7 +112,7 @@ SHRINK_BUDGET = (40, 120.0)
 
 SERIES_ORDER = 40
 POLY_ORDER = 24
-COEF_RTOL = Fraction(1, 10 ** 13)
+COEF_RTOL = Fraction(5, 10 ** 13)
 VAL_RTOL = 1e-13
 CLOSED_RTOL = 16 * 2.0 ** -52
 SAME_RTOL = 4 * 2.0 ** -52
@@ -106,8 +129,8 @@ RULE = ('Enumerated (fixed cases, complete): one case per published table (l,N) 
         'value.  Non-trivial: enumerated case with >=1 present non-zero cell; generated case with at least one e>0 (at e=0 '
         'only constant terms are exercised).  Distinct = distinct case dict (hash).')
 ASSUMPTIONS = ['G_lpq(e) = X^{-(l+1),(l-2p)}_{l-2p+q}(e) (Kaula 1966), oracle in oracles/hansen.py, exact rationals',
-               'coefficient tolerance 1e-13 relative (15-digit decimal literals; measured worst 4.6e-15)',
-               'compiled-value tolerance 2e-13 x sum|c_k|e^k (poly) / x |v|(1+(2l-1)/(1-e^2)) (closed forms)',
+               'coefficient tolerance 5e-13 relative (15-digit decimal literals; measured worst 2.7e-14 in the l=2,N=22 table)',
+               'compiled-value tolerance 1e-13 x sum|c_k|e^k (poly) / 16 ulp x |v|(1+(2l-1)/(1-e^2)) (closed forms), 1e-300 floor',
                'closed-form cells compared through e^40', 'N=22 claimed for l=2 only (FIXME aliases not claimed)']
 
 
@@ -294,9 +317,11 @@ def _new_counts():
     return {'absent': 0, 'closed': 0, 'poly': 0, 'coef': 0, 'present_zero': 0}
 
 
-def _count_labels(c, counts, aliased):
-    c.label('n_present=%d' % (counts['closed'] + counts['poly']), 'n_absent=%d' % counts['absent'],
-            'n_coef=%d' % counts['coef'], 'n_closed=%d' % counts['closed'], 'n_aliased=%d' % aliased)
+def _count_labels(c, counts, aliased, pre):
+    # measured counts travel to the evidence file as '<name>=<value>' labels (summed in extra_coverage)
+    c.label('%s_present=%d' % (pre, counts['closed'] + counts['poly']), '%s_absent=%d' % (pre, counts['absent']),
+            '%s_coef=%d' % (pre, counts['coef']), '%s_closed=%d' % (pre, counts['closed']),
+            '%s_aliased=%d' % (pre, aliased))
     if counts['closed']:
         c.label('cell:closed')
     if counts['poly']:
@@ -326,7 +351,7 @@ def _eval_table(case):
         if other is not None and _py(other) is not _py(fn):
             res2, _ = _table_series(other)
             _check_table(c, l, N, res2, where, _new_counts())
-    _count_labels(c, counts, aliased)
+    _count_labels(c, counts, aliased, 'nt')
     c.nontrivial = counts['coef'] > 0
     return c.result()
 
@@ -349,7 +374,7 @@ def _eval_lookup_py(case):
         res = {p: {q: (v if isinstance(v, Series) else Series.constant(v, SERIES_ORDER)) for q, v in row.items()}
                for p, row in raw[l].items()}
         _check_table(c, l, N, res, 'lookup_py', counts)
-    _count_labels(c, counts, 0)
+    _count_labels(c, counts, 0, 'nl')
     c.nontrivial = counts['coef'] > 0
     return c.result()
 
@@ -569,6 +594,11 @@ def in_domain(case):
         return False
 
 
+# two compiled-path witnesses (also make the evidence samples show what a generated case looks like)
+WITNESSES = [{'kind': 'compiled', 'path': 'dispatch', 'N': 4, 'l': 2, 'form': 'scalar', 'e': [0.3]},
+             {'kind': 'compiled', 'path': 'lookup', 'N': 4, 'l': 3, 'form': 'array', 'e': [0.0, 0.05, 0.6]}]
+
+
 def fixed_cases(tier):
     tables = [{'kind': 'table', 'l': l, 'N': N} for l in LS for N in NS if published(l, N)]
     lookups = [{'kind': 'lookup_py', 'N': N, 'lmax': lm} for lm in LS for N in NS if (N != 22 or lm == 2)]
@@ -579,7 +609,7 @@ def fixed_cases(tier):
         w = d['l'] + 1 if d['kind'] == 'table' else sum(l + 1 for l in range(2, d['lmax'] + 1))
         return w * (d['N'] + 5)
     allc.sort(key=lambda d: (-cost(d), d['kind'], d['N'], d.get('l', 0), d.get('lmax', 0)))
-    return allc
+    return WITNESSES + allc
 
 
 def _shard_index():
@@ -646,23 +676,26 @@ def extra_coverage(tier, merged):
     lab = merged['labels']
     tot = {}
     for k, n in lab.items():
-        if k.startswith('n_') and '=' in k:
+        if k[:3] in ('nt_', 'nl_') and '=' in k:
             name, v = k.split('=')
             tot[name] = tot.get(name, 0) + int(v) * n
     expected = len(fixed_cases(tier))
     n_tables = lab.get('table', 0)
     n_lookups = lab.get('lookup_py', 0)
     complete = (merged.get('fixed_cases', 0) == expected and n_tables == sum(1 for l in LS for N in NS if published(l, N))
-                and n_lookups == expected - n_tables)
+                and n_lookups == expected - n_tables - len(WITNESSES)
+                and not any('"exception"' in k for k in merged.get('fail_sig_counts', {})))
     return {'exhaustive': bool(complete),
             'explanation': ('exhaustive refers to the enumerated part: every published table (l,N) and every lookup helper '
                             '(N,l_max) run once on an exact power-series argument, all (p,q) cells compared coefficient-wise; '
                             'the compiled code is sampled (generated cases), l<=%d in this tier' % COMPILED_LMAX[tier]),
             'enumerated': {'tables': n_tables, 'lookup_helpers': n_lookups,
-                           'cells_present_checked': tot.get('n_present', 0), 'cells_absent_checked': tot.get('n_absent', 0),
-                           'closed_form_cells': tot.get('n_closed', 0), 'aliased_cells_in_tables': tot.get('n_aliased', 0),
-                           'nonzero_coefficients_compared': tot.get('n_coef', 0),
-                           'note': 'counts include the lookup-helper levels (each table is re-checked behind every helper)'}}
+                           'table_cells_present': tot.get('nt_present', 0), 'table_cells_absent': tot.get('nt_absent', 0),
+                           'table_cells_closed_form': tot.get('nt_closed', 0), 'table_cells_aliased': tot.get('nt_aliased', 0),
+                           'table_nonzero_coefficients_compared': tot.get('nt_coef', 0),
+                           'helper_level_cells_present': tot.get('nl_present', 0),
+                           'helper_level_cells_absent': tot.get('nl_absent', 0),
+                           'helper_level_nonzero_coefficients_compared': tot.get('nl_coef', 0)}}
 
 
 # ---- numba cache warm-up ---------------------------------------------------------------------------
